@@ -1,5 +1,7 @@
-import PymocaVerif.Lemmas.GenFunc
+import PymocaVerif.Lemmas.GenFuncMain
 import PymocaVerif.Lemmas.GenTotal
+import PymocaVerif.Lemmas.GenDelay
+import PymocaVerif.Lemmas.GenIndex
 import PymocaVerif.Model.RatPrims
 /-!
 # C11 — the DAE residual equals the Modelica meaning of the flat equations
@@ -116,44 +118,57 @@ example : ∃ c, genMEq ratPrims {} (fun _ => none) (fun _ => none)
   refine ⟨_, rfl, ?_⟩
   decide +kernel
 
-/-- **Sequential substitution is imperative execution** (`get_function`): a function whose body consists
-    of assignments and if-statements that assign one variable per branch translates to a `Function`
-    computing exactly what running the algorithm section computes.
-    *Partial*: for-statements and if-statements assigning several variables are inside the model
-    (`genStmt`, compared with the real code on every run) but outside this theorem; for if-statements
-    whose conditions read a variable assigned in the same if-statement the real translation is wrong
-    (known finding C11-F3). -/
-theorem function_subst_partial (P : Prims K) (o : Opts) (T : FTab K) (F : FSem K) (hT : TabOK P T F)
+/-- **Sequential substitution is imperative execution** (`get_function`, `exitAssignmentStatement`,
+    `exitIfStatement`, `exitForStatement`): a function translates to a `Function` computing exactly what
+    running its algorithm section computes.  `SafeFunc` asks for what the translation needs to be right at
+    all: scalar variables without subscripts (`mClosed`), locals distinct from inputs, and if-statements
+    whose branches assign the same variables in the same order with conditions that do not read a
+    variable assigned before the last one — outside that class the real translation is wrong (known
+    finding C11-F3) or raises.  Assignments, if-statements with any number of branches and variables, and
+    for-statements (any range, the loop index usable as a number) are all covered. -/
+theorem function_subst (P : Prims K) (o : Opts) (T : FTab K) (F : FSem K) (hT : TabOK P T F)
     (hS : NoShadow T) (f : MFunc K) (hf : SafeFunc f) (fn : CFunc K) (h : genFunc P o T f = .ok fn)
     (vs : List (List K)) : Refines (evalCF P fn vs) (funcSem P F f vs) :=
   genFunc_refines P o T F hT hS f hf fn h vs
 
 /-- The substitution lemma behind it: `ca.substitute` on a term = evaluating the term with the
-    substituted symbols bound to the values of their replacements. -/
-theorem substitute_is_rebinding (P : Prims K) (σ : SymVals K) (ρ : Env K)
-    (hsh : ∀ x s, SymVals.get σ x = some s → ρ.shape x = none) (t : CTerm K) (ht : noMap t = true) :
+    substituted symbols bound to the values of their replacements, also under the binders of mapped
+    loops (replacement terms are closed: no free loop index). -/
+theorem substitute_is_rebinding (P : Prims K) (σ : SymVals K) (hσ : ValsClosed σ) (t : CTerm K) (ρ : Env K)
+    (hsh : ∀ x s, SymVals.get σ x = some s → ρ.shape x = none) :
     evalC P ρ (subst σ t) = evalC P (over P ρ σ) t :=
-  evalC_subst P σ ρ hsh t ht
+  evalC_subst P σ hσ t ρ hsh
+
+/-- The column-wise merge of `exitIfStatement` (`expanded_blocks`): for branches that assign the
+    variables `xs` in the same order, one column of right-hand sides per variable. -/
+theorem if_statement_columns (xs : List String) (hn : xs.Nodup) (r : List (CTerm K))
+    (rest : List (List (CTerm K))) (h : ∀ q ∈ r :: rest, q.length = xs.length) :
+    expandBlocks ((r :: rest).map (fun q => xs.zip q)).flatten = xs.zip (colsOf xs.length (r :: rest)) :=
+  expandBlocks_aligned xs hn r rest h
 
 def exampleFunc : MFunc Rat :=
   { name := "f", inputs := ["a"], outputs := ["r"], locals := ["t"],
     body := [.assign "t" (.bin .add (.bin .mul (.num 2) (.ref "a" [])) (.num 1)),
-             .ifs [.bin .gt (.ref "a" []) (.num 0)] (singleBlocks "r" [.ref "t" [], .un .neg (.ref "t" [])]),
+             .ifs [.bin .gt (.ref "a" []) (.num 0)]
+               ([[.ref "t" [], .bin .add (.ref "r" []) (.num 1)], [.un .neg (.ref "t" []), .ref "t" []]].map
+                 fun q => ["r", "t"].zip q),
+             .for "k" 1 (.lit 3) 2 [("r", .bin .add (.ref "r" []) (.bin .mul (.idx "k") (.ref "t" [])))],
              .assign "r" (.bin .sub (.ref "r" []) (.ref "a" []))] }
 
 example : SafeFunc exampleFunc ∧
-    (∃ fn, genFunc ratPrims {} (fun _ => none) exampleFunc = .ok fn ∧ evalCF ratPrims fn [[3]] = some [4]) ∧
-    funcSem ratPrims (fun _ => none) exampleFunc [[3]] = some [4] := by
+    (∃ fn, genFunc ratPrims {} (fun _ => none) exampleFunc = .ok fn ∧ evalCF ratPrims fn [[3]] = some [36]) ∧
+    funcSem ratPrims (fun _ => none) exampleFunc [[3]] = some [36] := by
   refine ⟨⟨?_, by decide⟩, ⟨_, rfl, by decide +kernel⟩, by decide +kernel⟩
   intro s hs
   simp only [exampleFunc, List.mem_cons, List.mem_nil_iff, or_false] at hs
-  rcases hs with rfl | rfl | rfl
-  · exact .assign _ _
-  · exact .ifs _ _ _ (by decide)
-  · exact .assign _ _
+  rcases hs with rfl | rfl | rfl | rfl
+  · exact .assign _ _ (by decide)
+  · exact .ifs _ ["r", "t"] _ _ (by decide) (by decide) (by decide) (by decide) (by decide) (by decide)
+  · exact .for _ _ _ _ _ (by decide)
+  · exact .assign _ _ (by decide)
 
-/-- Function tables: functions are declared before use; if every function is in the fragment of
-    `function_subst_partial`, the translated table refines the table of meanings. -/
+/-- Function tables: functions are declared before use; the translated table refines the table of
+    meanings (every function in the class of `function_subst`). -/
 theorem function_table_correct (P : Prims K) (o : Opts) : ∀ (fs : List (MFunc K)),
     (∀ f ∈ fs, SafeFunc f) → NoShadow (genTable P o fs) → TabOK P (genTable P o fs) (funcTable P fs)
   | [], _, _ => ⟨fun _ => rfl, fun f fn h => by simp [genTable] at h⟩
@@ -181,10 +196,9 @@ theorem function_table_correct (P : Prims K) (o : Opts) : ∀ (fs : List (MFunc 
 
 /-- **The residual functions**: if the generator accepts the model, then at every point where the
     Modelica meaning of all (initial) equations is defined, the generated DAE / initial residual function
-    returns exactly `lhs - rhs` of each flat equation.
-    *Partial* only through `function_subst_partial`: the model's functions must lie in that fragment
-    (models without functions, or with such functions, are covered completely). -/
-theorem residual_function_correct_partial (P : Prims K) (o : Opts) (ienv : String → Option Int)
+    returns exactly `lhs - rhs` of each flat equation — plain, if- and for-equations, calls of functions
+    with assignments, if-statements and for-statements (`SafeFunc`, see `function_subst`). -/
+theorem residual_function_correct (P : Prims K) (o : Opts) (ienv : String → Option Int)
     (m : MModel K) (initial : Bool) (fn : CFunction K) (h : genResidual P o ienv m initial = .ok fn)
     (hsafe : ∀ f ∈ m.funcs, SafeFunc f) (hS : NoShadow (genTable P o m.funcs))
     (ρ : Env K) (hidx : ρ.idx = ienv) :
@@ -197,8 +211,59 @@ theorem residual_function_correct_partial (P : Prims K) (o : Opts) (ienv : Strin
 example : ∃ fn, genResidual ratPrims {} (fun _ => none)
       ⟨[exampleFunc], [.simple ⟨[.ref "y" []], .call "f" (.cons (.ref "x" []) .nil)⟩], []⟩ false = .ok fn ∧
     evalFn ratPrims ⟨fun n => if n = "x" then some [3] else some [1], fun _ => none, fun _ => none⟩ fn
-      = some [[(-3 : Rat)]] := by
+      = some [[(-35 : Rat)]] := by
   refine ⟨_, rfl, ?_⟩
   decide +kernel
+
+/-- **A delay operator is an independent input**: whatever its operands, `delay(e, d)` contributes the
+    symbol `_pymoca_delay_k` to the residual, on both sides (the operands only feed the delay-argument
+    function). -/
+theorem delay_is_free_input (P : Prims K) (o : Opts) (T : FTab K) (F : FSem K) (k : Nat) (e d : MExpr K)
+    (c : CTerm K) (h : gen P o T (.delay k e d) = .ok c) (ρ : Env K) :
+    evalC P ρ c = ρ.val (delayName k) ∧ evalM P F ρ (.delay k e d) = ρ.val (delayName k) := by
+  simp only [gen] at h
+  obtain ⟨_, _, h2⟩ := bind_ok.mp h
+  obtain ⟨_, _, hc⟩ := bind_ok.mp h2
+  cases hc
+  simp [evalC, evalM, Env.lookup]
+
+/-- **The delay-argument function** returns, per delay operator in walking order, the Modelica value
+    of the delayed expression and of the duration. -/
+theorem delay_arguments_correct (P : Prims K) (o : Opts) (m : MModel K) (fn : CFunction K)
+    (h : genDelayFunction P o m = .ok fn) (hsafe : ∀ f ∈ m.funcs, SafeFunc f)
+    (hS : NoShadow (genTable P o m.funcs)) (ρ : Env K) :
+    Refines (evalFn P ρ fn) (delayArgsOfModel P ρ m) := by
+  unfold genDelayFunction at h
+  obtain ⟨ts, hts, hc⟩ := bind_ok.mp h
+  cases hc
+  exact genDelayArgs_refines P o _ _ (function_table_correct P o m.funcs hsafe hS) hS _ ts hts ρ
+
+example : ∃ fn, genDelayFunction ratPrims {}
+      ⟨[], [.simple ⟨[.ref "y" []], .delay 0 (.bin .add (.ref "x" []) (.num 1)) (.ref "p" [])⟩], []⟩ = .ok fn ∧
+    evalFn ratPrims ⟨fun n => if n = "x" then some [3] else some [2], fun _ => none, fun _ => none⟩ fn
+      = some [[(4 : Rat)], [2]] := by
+  refine ⟨_, rfl, ?_⟩
+  decide +kernel
+
+/-! ### What subscripts mean (the specification side: 1-based, Modelica ranges, column-major) -/
+
+/-- A range subscript `lo : s : hi` selects the elements whose 1-based indices are the values of the
+    Modelica range `lo : s : hi` (ascending, inside the dimension; the step need not divide the span). -/
+theorem subscript_range_is_modelica_range (ienv : String → Option Int) (d : Nat) (lo hi : IdxE)
+    (l h s : Int) (hlo : lo.eval ienv = some l) (hhi : hi.eval ienv = some h) (hs : 0 < s) (hl : 1 ≤ l)
+    (hlh : l ≤ h) (hin : l + ((h - l) / s).toNat * s ≤ d) :
+    subPositions ienv d (.range (some lo) (some hi) s) =
+      some ((modelicaRange l s h).map fun v => (v - 1).toNat) :=
+  subPositions_range ienv d lo hi l h s hlo hhi hs hl hlh hin
+
+example : subPositions (fun _ => none) 6 (.range (some (.lit 2)) (some (.lit 6)) 3) = some [1, 4] := by decide
+
+/-- Element `[i, j]` of an `r × c` matrix is the column-major position `(i-1) + (j-1)·r`. -/
+theorem matrix_element_is_column_major (ienv : String → Option Int) (r c : Nat) (ei ej : IdxE) (i j : Int)
+    (hi : ei.eval ienv = some i) (hj : ej.eval ienv = some j) (hir : 1 ≤ i ∧ i ≤ r) (hjc : 1 ≤ j ∧ j ≤ c) :
+    positions ienv [r, c] [.at ei, .at ej] = some [(i - 1).toNat + (j - 1).toNat * r] :=
+  positions_matrix_element ienv r c ei ej i j hi hj hir hjc
+
+example : positions (fun _ => none) [2, 3] [.at (.lit 2), .at (.lit 3)] = some [5] := by decide
 
 end PymocaVerif.Gen
